@@ -621,7 +621,21 @@ pub fn soak_scenario(spec: &SoloSpec, seed: u64, k: u64) -> Scenario {
 /// seeded search: candidates are probed cheaply (800 opcodes) and ranked per dimension by what the
 /// reference machine R3 measures; the best ones are then run at scale.
 pub fn deep_count(spec: &SoloSpec, tier: Tier) -> u64 {
-    deep_base_count(spec, tier) + wide_count(spec, tier) + tail_variant_count(spec, tier) + sandwich_count(spec, tier)
+    deep_base_count(spec, tier) + wide_count(spec, tier) + tail_variant_count(spec, tier) + sandwich_count(spec, tier) + edge_count(spec, tier)
+}
+
+/// boundary-directed runs (threshold runs, argument sweeps, table sweeps): see edge.rs
+pub fn edge_count(spec: &SoloSpec, tier: Tier) -> u64 {
+    use std::sync::{Mutex, OnceLock};
+    static CACHE: OnceLock<Mutex<std::collections::HashMap<(&'static str, bool), u64>>> = OnceLock::new();
+    let cache = CACHE.get_or_init(|| Mutex::new(std::collections::HashMap::new()));
+    let key = (spec.prop, tier == Tier::Thorough);
+    if let Some(v) = cache.lock().unwrap().get(&key) {
+        return *v;
+    }
+    let v = crate::edge::threshold_count(spec, tier) + crate::edge::argsweep_count(spec, tier) + crate::edge::table_count(spec, tier);
+    cache.lock().unwrap().insert(key, v);
+    v
 }
 
 /// "sharing x every next opcode" (C09): the opcode-pair patterns with the largest unfolded size,
@@ -1083,7 +1097,7 @@ fn self_loops() -> Vec<(u8, Vec<u8>, u8)> {
     out
 }
 
-fn deep_patterns(seed: u64) -> &'static Vec<Pattern> {
+pub fn deep_patterns(seed: u64) -> &'static Vec<Pattern> {
     use std::sync::OnceLock;
     static CACHE: OnceLock<(u64, Vec<Pattern>)> = OnceLock::new();
     let c = CACHE.get_or_init(|| {
@@ -1278,6 +1292,19 @@ pub fn deep_scenario(spec: &SoloSpec, seed: u64, tier: Tier, k: u64) -> Scenario
     let base = deep_base_count(spec, tier);
     let wide = wide_count(spec, tier);
     let tails = tail_variant_count(spec, tier);
+    let sandwich = sandwich_count(spec, tier);
+    if k >= base + wide + tails + sandwich {
+        let e = k - base - wide - tails - sandwich;
+        let thr = crate::edge::threshold_count(spec, tier);
+        let args = crate::edge::argsweep_count(spec, tier);
+        return if e < thr {
+            crate::edge::threshold_scenario(spec, seed, e)
+        } else if e < thr + args {
+            crate::edge::argsweep_scenario(spec, e - thr)
+        } else {
+            crate::edge::table_scenario(spec, e - thr - args)
+        };
+    }
     if k >= base + wide + tails {
         return sandwich_scenario(seed, k - base - wide - tails);
     }
@@ -1347,6 +1374,8 @@ pub fn run_one(spec: &SoloSpec, seed: u64, tier: Tier, i: u64, runs: u64, stats:
         stats.bump("fault.cut.enumerated_short_script(runs)");
     } else if i >= runs + deep_count(spec, tier) {
         stats.bump("fault.hist.long_lived_generator(runs)");
+    } else if i >= runs + deep_count(spec, tier) - edge_count(spec, tier) {
+        stats.bump("fault.edge.boundary_directed(runs)");
     } else if i >= runs {
         stats.bump("fault.stuck.extremal_state_long_run(runs)");
     }
